@@ -439,6 +439,12 @@ fn check_app(args: &Args, rep: &mut Report, case: u64, app: &AppDesc, reqs: &[Re
         for rq in reqs {
             rep.eval();
             let segs = path_segments(&rq.path);
+            // a path whose escapes do not decode to UTF-8 is a malformed request: whether the reader refuses it (400) is C02's
+            // question, not a routing outcome
+            if crate::httpref::percent_decode_strict(rq.path.as_bytes()).ok().and_then(|b| String::from_utf8(b).ok()).is_none() {
+                rep.count("skipped:undecodable-path");
+                continue;
+            }
             let exp = ideal(&routes, rq.method, &segs);
             let gre = greedy(&routes, &mounts, rq.method, &segs);
             let (obs, _) = observe(&router, rq.method, &rq.path, &[]);
